@@ -133,12 +133,24 @@ func canon(s []span) ([]span, error) {
 						// There is a gap; cannot merge.
 						break
 					}
+					if this.max.lessThan(next.min) && (this.maxOpen || next.minOpen || !maxPlusOne.equal(next.min)) {
+						// Still a gap, however small: one of the facing
+						// ends is excluded, or next starts strictly between
+						// this.max and its successor.
+						continue
+					}
 				} else {
 					continue // Too difficult for now, but may be covered by another span. TODO?
 				}
 			}
 			// Max equals min, but don't merge if both open.
 			if this.maxOpen && next.minOpen {
+				continue
+			}
+			// A prerelease bound admits the other prereleases of its own
+			// version (see span.contains); extending this span across such
+			// a bound would lose that.
+			if (this.max.isPrerelease || next.min.isPrerelease) && this.max.lessThan(next.max) {
 				continue
 			}
 			// Merging prereleases and non-preleases is tricky, so avoid it.
